@@ -179,6 +179,9 @@ class SqlalchemyRender:
             arg1 = self.to_expression(t.args[1])
 
             op = t.op.lower()
+            if op in ('is', 'is not') and isinstance(t.args[1], ast.NullConstant):
+                # a labelled literal NULL makes `NOT (x IS NULL)` render as `x IS NULL`
+                arg1 = sa.null()
             if op in ('in', 'not in'):
                 if isinstance(arg1, sa.sql.selectable.ColumnClause):
                     raise NotImplementedError(f'Required list argument for: {op}')
